@@ -62,7 +62,7 @@ CLAIMED = {
         "DESIGN.md §4 C05",
     ),
     "C07": (
-        "Lean 4 refinement proof: every ByteVec method refines the flat zero-extended byte array (refines_* per method with WF preservation and error branches), lifted by induction over arbitrary operation histories on any number of objects (history_refines), plus copy_independent; the aliasing variant of the model is proved NOT to refine (decide witnesses) and the live variant is detected at run time; differential run of the real ByteVec / State / Message wrappers against the model, the spec and a Python flat array after every operation",
+        "Lean 4 refinement proof: every ByteVec method refines the flat zero-extended byte array (refines_* per method with WF preservation and error branches), lifted by induction over arbitrary operation histories on any number of objects (history_refines), plus copy_independent and the read-over-write laws stated outright (Props.C07Laws: flat_get_write on the spec, get_after_set_slice / get_after_set_word / slice_after_set_slice on the chunked object for every layout); the aliasing variant of the model is proved NOT to refine (decide witnesses) and the live variant is detected at run time; differential run of the real ByteVec / State / Message wrappers against the model, the spec and a Python flat array after every operation",
         "Full proof on the model for all histories; tie by correspondence (exhaustive length<=2 histories over a 66-operation alphabet + sampled length 3 + 4000 random histories of length <= 40 per quick run, with layout comparison)",
         "Trusted: Lean kernel, Model.ByteVec (hand model), sortedcontainers, z3 Extract/Concat (bytes compared as canonical tokens); a ByteVec passed whole to its own append/set_slice and negative offsets are stated exclusions",
         "DESIGN.md §4 C07",
